@@ -1,0 +1,95 @@
+//go:build verif
+
+package table
+
+import "time"
+
+// Contracts for the gcv verifier (/verif); compiled only with build tag `verif`.
+
+// ---------------------------------------------------------------------------------------
+// C08, table side of expiry scheduling: what the two scheduling calls of the forwarding pipelines do to the expiry queue
+// that the reaper (PitCsTree.Update) works off. The pipelines (fw/fw) are verified against a ghost model of these two
+// functions ("the entry is queued for removal" / "... for removal now"); here the same statements are proved of the code,
+// over the real queue:
+//
+//   [queued] entry e sits in p's expiry queue: e.pqItem is one of the queue's items, carries e, and its priority is e's
+//   expiration time (written out in each clause: the queue's fields are not visible to ghost Go code of this package).
+// ---------------------------------------------------------------------------------------
+
+// pitcsInstant(t): the instant a time value denotes, as a point on one time line (uninterpreted). time.Time.After compares
+// instants (assumption A-CLOCK-ORDER, stated as an extra clause of the trusted contract of (time.Time).After in
+// zz_verif_pitcs.go: t.After(u) == (pitcsInstant(t) > pitcsInstant(u)); every time compared here is a reading of time.Now()
+// plus a duration, so all carry a monotonic reading and compare by it). "a is not later than b" is
+// pitcsInstant(a) <= pitcsInstant(b).
+func pitcsInstant(t time.Time) int { panic("ghost") }
+
+// Queue.Update as fw/table sees it (environment model of std/utils/priority_queue, trusted like the other queue operations:
+// assign value and priority to the item, container/heap.Fix): the item carries the new value and priority; the queue holds
+// the same items as before (in some order), in the same backing array.
+//
+//@ func (*github.com/named-data/ndnd/std/utils/priority_queue.Queue[V, P]).Update
+//@   trusted
+//@   option no-alloc
+//@   requires item != nil
+//@   modifies pq.pq[*], item.object, item.priority
+//@   ensures item.object == value && item.priority == priority
+//@   ensures len(pq.pq) == old(len(pq.pq)) && sliceArr(pq.pq) == old(sliceArr(pq.pq))
+//@   ensures forallIn(0, len(pq.pq), func(i int) bool { return existsIn(0, old(len(pq.pq)), func(j int) bool { return pq.pq[i] == old(pq.pq[j]) }) })
+//@   ensures forallIn(0, old(len(pq.pq)), func(j int) bool { return existsIn(0, len(pq.pq), func(i int) bool { return pq.pq[i] == old(pq.pq[j]) }) })
+
+// Expiration time of an entry, as seen through the interface (the methods are those of the embedded basePitEntry; the
+// methods of *nameTreePitEntry are compiler-made wrappers that cannot be named in a contract, so these two one-line
+// accessors are not put through the refinement check: result == field / field == argument hold by inspection).
+//
+//@ func (PitEntry).ExpirationTime
+//@   ensures typeIs(self, "*nameTreePitEntry") ==> result == self.(*nameTreePitEntry).expirationTime
+
+//@ func (PitEntry).SetExpirationTime
+//@   modifies self.(*nameTreePitEntry).expirationTime
+//@   ensures typeIs(self, "*nameTreePitEntry") ==> self.(*nameTreePitEntry).expirationTime == t
+
+// updatePitExpiry, interface level and tree implementation: the entry is (re)queued at its current expiration time.
+//
+//@ func (PitCsTable).updatePitExpiry
+//@   requires pitEntry != nil && typeIs(pitEntry, "*nameTreePitEntry") && pitEntry.(*nameTreePitEntry) != nil
+//@   requires typeIs(self, "*PitCsTree") && self.(*PitCsTree) != nil
+//@   requires [queued-item-is-live] pitEntry.(*nameTreePitEntry).pqItem != nil ==> existsIn(0, len(self.(*PitCsTree).pitExpiryQueue.pq), func(i int) bool { return self.(*PitCsTree).pitExpiryQueue.pq[i] == pitEntry.(*nameTreePitEntry).pqItem })
+//@   modifies pitEntry.(*nameTreePitEntry).pqItem, self.(*PitCsTree).pitExpiryQueue.pq, self.(*PitCsTree).pitExpiryQueue.pq[*], pitEntry.(*nameTreePitEntry).pqItem.object, pitEntry.(*nameTreePitEntry).pqItem.priority
+//@   ensures [queued] pitEntry.(*nameTreePitEntry).pqItem != nil && pitEntry.(*nameTreePitEntry).pqItem.object == pitEntry.(*nameTreePitEntry) && pitEntry.(*nameTreePitEntry).pqItem.priority == pitEntry.(*nameTreePitEntry).expirationTime.UnixNano() && existsIn(0, len(self.(*PitCsTree).pitExpiryQueue.pq), func(i int) bool { return self.(*PitCsTree).pitExpiryQueue.pq[i] == pitEntry.(*nameTreePitEntry).pqItem })
+
+//@ func (*PitCsTree).updatePitExpiry
+//@   requires pitEntry != nil && typeIs(pitEntry, "*nameTreePitEntry") && pitEntry.(*nameTreePitEntry) != nil
+//@   requires [queued-item-is-live] pitEntry.(*nameTreePitEntry).pqItem != nil ==> existsIn(0, len(p.pitExpiryQueue.pq), func(i int) bool { return p.pitExpiryQueue.pq[i] == pitEntry.(*nameTreePitEntry).pqItem })
+//@   modifies pitEntry.(*nameTreePitEntry).pqItem, p.pitExpiryQueue.pq, p.pitExpiryQueue.pq[*], pitEntry.(*nameTreePitEntry).pqItem.object, pitEntry.(*nameTreePitEntry).pqItem.priority
+//@   ensures [queued] pitEntry.(*nameTreePitEntry).pqItem != nil && pitEntry.(*nameTreePitEntry).pqItem.object == pitEntry.(*nameTreePitEntry) && pitEntry.(*nameTreePitEntry).pqItem.priority == pitEntry.(*nameTreePitEntry).expirationTime.UnixNano() && existsIn(0, len(p.pitExpiryQueue.pq), func(i int) bool { return p.pitExpiryQueue.pq[i] == pitEntry.(*nameTreePitEntry).pqItem })
+
+// SetExpirationTimerToNow ("promptly once it is satisfied"): the entry is queued for removal at the clock reading taken by
+// this call.
+//
+//@ func SetExpirationTimerToNow
+//@   requires e != nil && typeIs(e, "*nameTreePitEntry") && e.(*nameTreePitEntry) != nil && typeIs(e.PitCs(), "*PitCsTree") && e.PitCs().(*PitCsTree) != nil
+//@   requires [queued-item-is-live] e.(*nameTreePitEntry).pqItem != nil ==> existsIn(0, len(e.PitCs().(*PitCsTree).pitExpiryQueue.pq), func(i int) bool { return e.PitCs().(*PitCsTree).pitExpiryQueue.pq[i] == e.(*nameTreePitEntry).pqItem })
+//@   modifies e.(*nameTreePitEntry).expirationTime, e.(*nameTreePitEntry).pqItem, e.PitCs().(*PitCsTree).pitExpiryQueue.pq, e.PitCs().(*PitCsTree).pitExpiryQueue.pq[*], e.(*nameTreePitEntry).pqItem.object, e.(*nameTreePitEntry).pqItem.priority
+//@   ensures [due-now] ghostPitcsClock == old(ghostPitcsClock)+1 && e.(*nameTreePitEntry).expirationTime == specPitcsClockAt(old(ghostPitcsClock))
+//@   ensures [queued] e.(*nameTreePitEntry).pqItem != nil && e.(*nameTreePitEntry).pqItem.object == e.(*nameTreePitEntry) && e.(*nameTreePitEntry).pqItem.priority == e.(*nameTreePitEntry).expirationTime.UnixNano() && existsIn(0, len(e.PitCs().(*PitCsTree).pitExpiryQueue.pq), func(i int) bool { return e.PitCs().(*PitCsTree).pitExpiryQueue.pq[i] == e.(*nameTreePitEntry).pqItem })
+
+// UpdateExpirationTimer ("no later than shortly after the latest lifetime among the Interests recorded in it"): the entry is
+// queued for removal at a time that [covers-in-records]/[covers-out-records] no record's deadline is after, and that
+// [not-later-than-latest] is the clock reading taken by this call or the deadline of one of its records.
+//
+//@ func UpdateExpirationTimer
+//@   requires e != nil && typeIs(e, "*nameTreePitEntry") && e.(*nameTreePitEntry) != nil && typeIs(e.PitCs(), "*PitCsTree") && e.PitCs().(*PitCsTree) != nil
+//@   requires [queued-item-is-live] e.(*nameTreePitEntry).pqItem != nil ==> existsIn(0, len(e.PitCs().(*PitCsTree).pitExpiryQueue.pq), func(i int) bool { return e.PitCs().(*PitCsTree).pitExpiryQueue.pq[i] == e.(*nameTreePitEntry).pqItem })
+//@   requires pitcsRecordsInv(e.(*nameTreePitEntry))
+//@   modifies e.(*nameTreePitEntry).expirationTime, e.(*nameTreePitEntry).pqItem, e.PitCs().(*PitCsTree).pitExpiryQueue.pq, e.PitCs().(*PitCsTree).pitExpiryQueue.pq[*], e.(*nameTreePitEntry).pqItem.object, e.(*nameTreePitEntry).pqItem.priority
+//@   ensures [queued] e.(*nameTreePitEntry).pqItem != nil && e.(*nameTreePitEntry).pqItem.object == e.(*nameTreePitEntry) && e.(*nameTreePitEntry).pqItem.priority == e.(*nameTreePitEntry).expirationTime.UnixNano() && existsIn(0, len(e.PitCs().(*PitCsTree).pitExpiryQueue.pq), func(i int) bool { return e.PitCs().(*PitCsTree).pitExpiryQueue.pq[i] == e.(*nameTreePitEntry).pqItem })
+//@   ensures [covers-in-records] forall(func(k uint64) bool { return mapHas(e.(*nameTreePitEntry).inRecords, k) ==> pitcsInstant(e.(*nameTreePitEntry).inRecords[k].ExpirationTime) <= pitcsInstant(e.(*nameTreePitEntry).expirationTime) })
+//@   ensures [covers-out-records] forall(func(k uint64) bool { return mapHas(e.(*nameTreePitEntry).outRecords, k) ==> pitcsInstant(e.(*nameTreePitEntry).outRecords[k].ExpirationTime) <= pitcsInstant(e.(*nameTreePitEntry).expirationTime) })
+//@   ensures [not-later-than-latest] ghostPitcsClock == old(ghostPitcsClock)+1 && (e.(*nameTreePitEntry).expirationTime == specPitcsClockAt(old(ghostPitcsClock)) || exists(func(k uint64) bool { return mapHas(e.(*nameTreePitEntry).inRecords, k) && e.(*nameTreePitEntry).expirationTime == e.(*nameTreePitEntry).inRecords[k].ExpirationTime }) || exists(func(k uint64) bool { return mapHas(e.(*nameTreePitEntry).outRecords, k) && e.(*nameTreePitEntry).expirationTime == e.(*nameTreePitEntry).outRecords[k].ExpirationTime }))
+//@   loop 1 invariant ghostPitcsClock == old(ghostPitcsClock)+1 && e.(*nameTreePitEntry).pqItem == old(e.(*nameTreePitEntry).pqItem)
+//@   loop 1 invariant forall(func(k uint64) bool { return visited(k) && mapHas(e.(*nameTreePitEntry).inRecords, k) ==> pitcsInstant(e.(*nameTreePitEntry).inRecords[k].ExpirationTime) <= pitcsInstant(e.(*nameTreePitEntry).expirationTime) })
+//@   loop 1 invariant e.(*nameTreePitEntry).expirationTime == specPitcsClockAt(old(ghostPitcsClock)) || exists(func(k uint64) bool { return mapHas(e.(*nameTreePitEntry).inRecords, k) && e.(*nameTreePitEntry).expirationTime == e.(*nameTreePitEntry).inRecords[k].ExpirationTime })
+//@   loop 2 invariant ghostPitcsClock == old(ghostPitcsClock)+1 && e.(*nameTreePitEntry).pqItem == old(e.(*nameTreePitEntry).pqItem)
+//@   loop 2 invariant forall(func(k uint64) bool { return mapHas(e.(*nameTreePitEntry).inRecords, k) ==> pitcsInstant(e.(*nameTreePitEntry).inRecords[k].ExpirationTime) <= pitcsInstant(e.(*nameTreePitEntry).expirationTime) })
+//@   loop 2 invariant forall(func(k uint64) bool { return visited(k) && mapHas(e.(*nameTreePitEntry).outRecords, k) ==> pitcsInstant(e.(*nameTreePitEntry).outRecords[k].ExpirationTime) <= pitcsInstant(e.(*nameTreePitEntry).expirationTime) })
+//@   loop 2 invariant e.(*nameTreePitEntry).expirationTime == specPitcsClockAt(old(ghostPitcsClock)) || exists(func(k uint64) bool { return mapHas(e.(*nameTreePitEntry).inRecords, k) && e.(*nameTreePitEntry).expirationTime == e.(*nameTreePitEntry).inRecords[k].ExpirationTime }) || exists(func(k uint64) bool { return mapHas(e.(*nameTreePitEntry).outRecords, k) && e.(*nameTreePitEntry).expirationTime == e.(*nameTreePitEntry).outRecords[k].ExpirationTime })
